@@ -34,7 +34,9 @@ def tlc_eval(progs, workers=None, timeout=900, cfg="AldorSem", module="AldorSem"
 
 
 import concurrent.futures
+import hashlib
 import subprocess
+import threading
 
 
 # ---- dialects (gen/render.py): the library a rendering is written against ----
@@ -44,9 +46,46 @@ DIALECT_ARGS = {
     "libaldor": ["-I" + os.path.join(_LIBALDOR, "include"), "-Y" + os.path.join(_LIBALDOR, "src"),
                  "-Y" + os.path.join(vlib.REPO, "aldor/aldor/lib/libfoamlib/al")],
 }
-# the shipped Java run time and class archives (products of the repository's own build)
+# the shipped class archives of the libraries (products of the repository's own build)
 JAVA_JARS = [os.path.join(vlib.REPO, p) for p in ("aldor/aldor/lib/java/src/foamj.jar", "aldor/aldor/lib/libfoam/al/foam.jar",
                                                   "aldor/aldor/lib/libfoamlib/al/foamlib.jar", "aldor/lib/aldor/src/aldor.jar")]
+_CP = {}
+_CP_LOCK = threading.Lock()
+
+
+def java_classpath():
+    """Class path of the Java route: the foamj run time compiled from the working tree's sources
+    (<src>/../lib/java/src/foamj/*.java, exactly what the repository's Makefile puts into foamj.jar; cached by content
+    hash next to the compiler build) followed by the shipped library archives foam.jar, foamlib.jar, aldor.jar."""
+    with _CP_LOCK:
+        if "cp" in _CP:
+            return _CP["cp"]
+        srcdir = os.path.normpath(os.path.join(vlib.SRC, "..", "lib", "java", "src"))
+        files = sorted(f for f in os.listdir(os.path.join(srcdir, "foamj")) if f.endswith(".java"))
+        h = hashlib.sha256()
+        for f in files:
+            h.update(f.encode())
+            h.update(open(os.path.join(srcdir, "foamj", f), "rb").read())
+        cache = os.path.join(os.environ.get("VERIF_CACHE", "/var/tmp/aldor-verif-cache"), "foamj-" + h.hexdigest()[:20])
+        if os.path.exists(os.path.join(cache, "OK")):
+            os.utime(os.path.join(cache, "OK"))      # vbuild's cache cleaning keeps recently used entries
+        else:
+            tmp = cache + ".%d" % os.getpid()
+            os.makedirs(tmp, exist_ok=True)
+            rc, out, err, to = vlib.run(["javac", "-nowarn", "-g", "-d", tmp] + [os.path.join("foamj", f) for f in files],
+                                        cwd=srcdir, timeout=300)
+            if rc != 0 or to:
+                raise vlib.MachineryError("the foamj run time does not compile:\n" + (out + err).decode(errors="replace")[:2000])
+            open(os.path.join(tmp, "OK"), "w").close()
+            try:
+                os.rename(tmp, cache)
+            except OSError:          # another process was faster
+                import shutil
+                shutil.rmtree(tmp, ignore_errors=True)
+        _CP["cp"] = [cache] + JAVA_JARS[1:]
+        return _CP["cp"]
+
+
 JAVA_BATCH = 24      # programs per javac invocation (javac start-up is about 2 s)
 
 
@@ -97,7 +136,7 @@ def java_compile(jobs, classdir, timeout=600):
     if not jobs:
         return
     os.makedirs(classdir, exist_ok=True)
-    cmd = ["javac", "-nowarn", "-cp", ":".join(JAVA_JARS), "-d", classdir] + [j["java"] for j in jobs]
+    cmd = ["javac", "-nowarn", "-cp", ":".join(java_classpath()), "-d", classdir] + [j["java"] for j in jobs]
     rc, out, err, to = vlib.run(cmd, cwd=classdir, timeout=timeout)
     if rc == 0 and not to:
         for j in jobs:
@@ -115,7 +154,7 @@ def java_run(job, timeout=60, env=None):
     if job["res"] is not None:
         return job["res"]
     rc, out, err, to = vlib.run(["java", "-Xss64m", "-XX:TieredStopAtLevel=1", "-XX:+UseSerialGC", "-cp",
-                                 ":".join([job["classes"]] + JAVA_JARS), "aldorcode." + job["unit"]],
+                                 ":".join([job["classes"]] + java_classpath()), "aldorcode." + job["unit"]],
                                 cwd=job["dir"], timeout=timeout, env=env)
     job["res"] = _res(rc, out, err, "run", to, job["dir"])
     return job["res"]
